@@ -696,7 +696,9 @@ where
             // end a shrink in progress (every further candidate "passes")
             return Ok(());
         }
-        let r = test(&v);
+        // a panic that escapes the case function (harness code outside its own catch calls)
+        // becomes a failure like any other; one raised by harness files is a machinery failure
+        let r = catch(|| test(&v)).and_then(|r| r);
         if *failed.borrow() {
             // shrinking phase: no counting; a candidate only counts as "still failing" when it
             // fails in the same way (same signature), so that a counterexample never shrinks
@@ -769,7 +771,7 @@ where
     match result {
         Ok(()) => {}
         Err(TestError::Fail(reason, value)) => {
-            let fail = match test(&value) {
+            let fail = match catch(|| test(&value)).and_then(|r| r) {
                 Err(f) => f,
                 Ok(_) => Fail::new(
                     "flaky: shrunk case passed on re-run",
